@@ -1,6 +1,9 @@
 package goprog
 
-import "fmt"
+import (
+	"fmt"
+	"strings"
+)
 
 // stmtExtra emits a self-contained snippet exercising one language feature with fresh names;
 // values come from the expression generator, so they are not constants.
@@ -24,8 +27,8 @@ func (g *gen) stmtExtra() {
 		at = g.sb.Len()
 		return v
 	}
-	k := g.pick("extra", 56)
-	if k == 22 || k == 23 || k == 37 || k == 40 || k == 46 {
+	k := g.pick("extra", 60)
+	if k == 22 || k == 23 || k == 37 || k == 40 || k == 46 || k >= 56 && k <= 59 {
 		if g.off["recover"] || g.rangeDepth > 0 && g.off["recover.in_range"] {
 			k = 0
 		} else {
@@ -740,6 +743,53 @@ func (g *gen) stmtExtra() {
 		g.line("println(%s, %s, %s, %s)", show(x("ah")+".Sl[0]"), show(x("ah")+".Sl[1]"), show(x("as")+"[1].F"), show(x("as")+"[0].Arr[1]"))
 		g.line("println(%s, %s, %s, %s, len(%s))", show(x("as")+"[1].Sl[0]"), show(x("am")+"[\"k\"]"), show(x("ac")+".F"), show(x("ac")+".Arr[1]"), x("am"))
 		g.line("println(%s, %s)", show(x("ac")+".Sl[1]"), show(x("ac")+".Arr[0]"))
+	case 56, 57, 58, 59:
+		// one kind of run-time fault in one expression position, recovered by the enclosing
+		// function literal: what is printed before the fault, the recovered message and the
+		// statements after it must be those of gc
+		g.feat("fault_matrix")
+		g.line("%s := []int{1, 2, 3}", x("zs"))
+		g.line("%s, %s := 5, 0", x("zi"), x("zz"))
+		g.line("var %s *int", x("zp"))
+		g.line("var %s interface{} = \"str\"", x("zx"))
+		g.line("var %s func() int", x("zf"))
+		g.line("%s := make(chan int, 4)", x("zc"))
+		g.line("%s := func(a int) { println(\"called\", a) }", x("zv"))
+		g.line("_, _, _, _, _, _, _ = %s, %s, %s, %s, %s, %s, %s", x("zs"), x("zi"), x("zz"), x("zp"), x("zx"), x("zf"), x("zc"))
+		g.line("_ = %s", x("zv"))
+		fault := g.oneOf("fmfault", []string{
+			x("zs") + "[" + x("zi") + "]", "10 / " + x("zz"), "*" + x("zp"), x("zx") + ".(int)", "len(" + x("zs") + "[2:" + x("zi") + "])",
+			"func() int { panic(\"explicit\") }()", x("zf") + "()", "10 % " + x("zz"), "len(make([]int, " + x("zz") + "-1))", "[3]int{}[" + x("zi") + "-" + x("zi") + "+" + x("zi") + "%4+2]",
+			"func() int { panic(fmt" + x("zi") + ") }()",
+		})
+		if strings.Contains(fault, "panic(fmt") {
+			fault = "func() int { panic(" + x("zi") + " * 2) }()"
+		}
+		pos := g.oneOf("fmpos", []string{
+			"println(\"value\", %s)", "x := %s; println(\"after\", x)", "if %s > 0 { println(\"then\") }", "for i := 0; i < %s; i++ { println(\"loop\") }", "switch %s { case 1: println(\"one\") }",
+			x("zs") + "[%s] = 1", "_ = " + x("zs") + "[%s]", x("zv") + "(%s)", "defer " + x("zv") + "(%s)", "_ = []int{1, %s}", "_ = map[int]int{%s: 1}", "_ = S0{A: %s}", x("zc") + " <- %s",
+			"x, y := %s, 1; println(x, y)", "x := 1; x += %s; println(x)", x("zs") + " = append(" + x("zs") + ", %s)", "for range make([]int, %s&3) { println(\"r\") }", "select { case " + x("zc") + " <- %s: println(\"sent\"); default: println(\"default\") }",
+			"println(func() int { return %s }())", "defer func() { println(\"in deferred\"); _ = %s }()", "defer println(\"deferred arg\", %s)", "func() { defer func() { println(\"inner\", recover() != nil) }(); _ = %s }(); println(\"after inner\")",
+			"var i interface{} = %s; println(i != nil)", "println(\"first\"); println(%s); println(\"unreachable\")", "x := []func() int{func() int { return %s }}; println(x[0]())",
+		})
+		g.line("func() {")
+		g.line("\tdefer func() {")
+		g.line("\t\tswitch r := recover().(type) {")
+		g.line("\t\tcase nil:")
+		g.line("\t\t\tprintln(\"no panic\")")
+		g.line("\t\tcase error:")
+		g.line("\t\t\tprintln(\"recovered error:\", r.Error())")
+		g.line("\t\tcase string:")
+		g.line("\t\t\tprintln(\"recovered string:\", r)")
+		g.line("\t\tcase int:")
+		g.line("\t\t\tprintln(\"recovered int:\", r)")
+		g.line("\t\t}")
+		g.line("\t}()")
+		g.line("\tprintln(\"before\")")
+		g.line("\t%s", strings.ReplaceAll(pos, "%s", fault))
+		g.line("\tprintln(\"end of function\")")
+		g.line("}()")
+		g.line("println(len(%s), len(%s))", x("zs"), x("zc"))
 	default:
 		g.feat("float_ops")
 		g.line("%s, %s := %s, %s", x("fx"), x("fy"), e("float64"), e("float64"))
